@@ -22,6 +22,7 @@ computations, not of their values.
 -/
 import Poulpy.Lemmas.CoreCmp
 import Poulpy.Lemmas.CoreSerDec
+import Poulpy.Lemmas.CoreCmpT
 
 namespace C19
 open CoreEnc
@@ -250,6 +251,156 @@ open Ser CoreSer in
 example : CoreSer.MatWF ⟨2, 1, 1, 2, 1, List.replicate 32 1⟩ ∧
     (cellsOfState ⟨[6, 3, 1, 1], [⟨2, List.replicate 64 2⟩], [.mat ⟨2, 1, 1, 2, 1, List.replicate 32 1⟩], 64⟩).map List.length = some 2 := by
   unfold CoreSer.MatWF; decide
+
+/-! ### the scratch temporary, tensor keys, blind-rotation keys, LWE -/
+
+/-- **the matrix routines as the Rust runs them** (`Core.gglweEncryptCompressedT` / `Core.ggswEncryptCompressedT`: one temporary
+plaintext taken from scratch, zeroed *entirely*, filled on the gadget limb and normalised in place at every iteration) compute
+exactly the cell list of `gglweEncryptCompressed` / `ggswEncryptCompressed`, whatever the scratch held on entry — in particular
+for scalars with coefficients ≥ 2^(base2k−1), whose normalisation carries into the limb above the gadget limb.  Every theorem
+about the latter (`compressed_cells_eq`, the index theorems) therefore holds for what the driver executes. -/
+theorem matrix_temporary_irrelevant {n size : Nat} (tmp0 : Col) (hl : tmp0.length = size) (hw : WF n tmp0)
+    (bits b kxe rankOut rankIn dnum dsize : Nat) (pts : List Poly) (hpts : ∀ col, col < rankIn → (pts.getD col []).length = n)
+    (pt : Poly) (hpt : pt.length = n) (sk : List Poly) (expand : List Nat → List Nat) (seedXa : List Nat) (es : List Poly) :
+    Core.gglweEncryptCompressedT tmp0 bits b n size kxe rankOut rankIn dnum dsize pts sk expand seedXa es
+      = Core.gglweEncryptCompressed bits b n size kxe rankOut rankIn dnum dsize pts sk expand seedXa es ∧
+    Core.ggswEncryptCompressedT tmp0 bits b n size kxe rankOut dnum dsize pt sk expand seedXa es
+      = Core.ggswEncryptCompressed bits b n size kxe rankOut dnum dsize pt sk expand seedXa es :=
+  ⟨gglweEncryptCompressedT_eq tmp0 hl hw bits b kxe rankOut rankIn dnum dsize pts hpts sk expand seedXa es,
+   ggswEncryptCompressedT_eq tmp0 hl hw bits b kxe rankOut dnum dsize pt hpt sk expand seedXa es⟩
+
+/-- non-vacuity: radix 2^2, a scalar with coefficient 3 ≥ 2^(b−1) (carry into the limb above), two rows, garbage temporary -/
+example : (Core.gglweEncryptCompressedT [[7, 7], [9, 9], [5, 5]] 64 2 2 3 6 1 1 2 1 [[3, -2]] [[1, -1]] (fun s => s ++ [1, 2, 3, 4, 5, 6, 7, 8, 9, 10])
+      [1, 2, 3, 4, 5, 6, 7, 8] [[0, 1], [1, 0]]).map (fun o => o.map (fun c => (c.1, c.2.body, c.2.seed)))
+    = (Core.gglweEncryptCompressed 64 2 2 3 6 1 1 2 1 [[3, -2]] [[1, -1]] (fun s => s ++ [1, 2, 3, 4, 5, 6, 7, 8, 9, 10]) [1, 2, 3, 4, 5, 6, 7, 8]
+      [[0, 1], [1, 0]]).map (fun o => o.map (fun c => (c.1, c.2.body, c.2.seed)))
+    ∧ (Core.gglweEncryptCompressed 64 2 2 3 6 1 1 2 1 [[3, -2]] [[1, -1]] (fun s => s ++ [1, 2, 3, 4, 5, 6, 7, 8, 9, 10]) [1, 2, 3, 4, 5, 6, 7, 8] [[0, 1], [1, 0]]).isSome := by
+  decide
+
+/-- **`GLWETensorKeyCompressed`**: `glwe_tensor_key_compressed_encrypt_sk` is the compressed GGLWE encryption of the tensor
+secret (`s_i·s_j`, `i ≤ j`, at input column `i·rank + j − i(i+1)/2`, normalised to one limb of radix 2^17 — coefficients up to
+2^16 in absolute value, far above 2^(base2k−1) at small radices) with `rank_in` = number of pairs; so cell `(row, col)` of the
+tensor key falls under `compressed_cells_eq` with seed index `row·rank_in + col` (`gglwe_seed_index`). -/
+theorem tensor_key_compressed_eq {n size : Nat} (tmp0 : Col) (hl : tmp0.length = size) (hw : WF n tmp0)
+    (bits b kxe rank dnum dsize : Nat) (hbits : bits = 64 ∨ bits = 128) (sk : List Poly) (expand : List Nat → List Nat)
+    (seedXa : List Nat) (es : List Poly) :
+    Core.tensorKeyEncryptCompressedT tmp0 bits b n size kxe rank dnum dsize sk expand seedXa es
+      = (Core.tensorSecret bits n sk).bind (fun pts =>
+          Core.gglweEncryptCompressed bits b n size kxe rank pts.length dnum dsize pts sk expand seedXa es) := by
+  unfold Core.tensorKeyEncryptCompressedT
+  cases ht : Core.tensorSecret bits n sk with
+  | none => rfl
+  | some pts =>
+    simp only [Option.bind_some]
+    apply gglweEncryptCompressedT_eq tmp0 hl hw
+    intro col hc
+    apply tensorSecret_length bits n hbits sk pts ht
+    rw [List.getD_eq_getElem?_getD, List.getElem?_eq_getElem hc]
+    simp
+
+/-- non-vacuity: rank 2 (three pairs, in the order (0,0), (0,1), (1,1)) -/
+example : Core.tensorSecret 64 2 [[1, 1], [0, -1]] = some [[0, 2], [1, -1], [-1, 0]] ∧
+    ((Core.tensorKeyEncryptCompressedT [[0, 0], [0, 0]] 64 2 2 2 4 2 1 1 [[1, 1], [0, -1]] (fun s => s ++ [1, 2, 3, 4, 5, 6, 7, 8, 9, 10, 11, 12, 13, 14])
+      [1, 2, 3, 4] [[0, 1], [1, 0], [0, 0]]).map (fun o => o.map (·.1))) = some [0, 1, 2] := by decide
+
+/-- **`BlindRotationKeyCompressed` (CGGI, standard and block-binary)**: GGSW `i` is `ggsw_compressed_encrypt_sk` of the constant
+polynomial `sk_lwe[i]` under the seed that is the `i`-th `new_seed()` of `Source::new(seed_xa)` (words `4i … 4i+3`), with the
+error stream continuing where GGSW `i−1` stopped — so every cell of every GGSW falls under `compressed_cells_eq`
+(through `matrix_temporary_irrelevant`). -/
+theorem brk_subkeys_eq (bits b n size kxe rank dnum : Nat) (sk : List Poly) (expand : List Nat → List Nat) (tmp0 : Col) :
+    ∀ (skLwe : List Int) (top : List Nat) (es : List Poly) (out : List (List (Nat × Core.CellC))),
+      Core.brkLoop bits b n size kxe rank dnum sk expand tmp0 skLwe top es = some out →
+      out.length = skLwe.length ∧
+      ∀ (i : Nat) (si : Int), skLwe[i]? = some si →
+        ∃ cells, out[i]? = some cells ∧
+          Core.ggswEncryptCompressedT tmp0 bits b n size kxe rank dnum 1 (si :: List.replicate (n - 1) 0) sk expand ((top.drop (4 * i)).take 4)
+            (es.drop ((out.take i).map List.length).sum) = some cells := by
+  intro skLwe
+  induction skLwe with
+  | nil => intro top es out h; simp [Core.brkLoop] at h; subst h; simp
+  | cons s0 rest ih =>
+    intro top es out h
+    unfold Core.brkLoop at h
+    cases hn : Sampling.newSeed top with
+    | none => simp [hn] at h
+    | some q =>
+      obtain ⟨seed, top'⟩ := q
+      simp only [hn] at h
+      cases hc : Core.ggswEncryptCompressedT tmp0 bits b n size kxe rank dnum 1 (s0 :: List.replicate (n - 1) 0) sk expand seed es with
+      | none => simp [hc] at h
+      | some cells =>
+        simp only [hc] at h
+        cases hr : Core.brkLoop bits b n size kxe rank dnum sk expand tmp0 rest top' (es.drop cells.length) with
+        | none => simp [hr] at h
+        | some out' =>
+          simp only [hr, Option.some.injEq] at h
+          subst h
+          obtain ⟨il, ic⟩ := ih top' (es.drop cells.length) out' hr
+          have hseed : seed = top.take 4 ∧ top' = top.drop 4 := by
+            match top, hn with
+            | a :: b' :: c :: d :: r, hn => simp [Sampling.newSeed] at hn; simp [hn.1.symm, hn.2.symm]
+          refine ⟨by simp [il], ?_⟩
+          intro i si hp
+          cases i with
+          | zero =>
+            simp only [List.getElem?_cons_zero, Option.some.injEq] at hp
+            subst hp
+            exact ⟨cells, by simp, by simpa [hseed.1] using hc⟩
+          | succ j =>
+            simp only [List.getElem?_cons_succ] at hp
+            obtain ⟨cs, h1, h2⟩ := ic j si hp
+            refine ⟨cs, by simpa using h1, ?_⟩
+            rw [hseed.2, List.drop_drop, List.drop_drop] at h2
+            have e1 : 4 + 4 * j = 4 * (j + 1) := by omega
+            have e2 : cells.length + ((out'.take j).map List.length).sum = (((cells :: out').take (j + 1)).map List.length).sum := by
+              simp
+            rw [e1, e2] at h2
+            exact h2
+
+example : (Core.brkEncryptCompressed 64 3 1 2 5 1 1 [1, 0] [[1]] (fun s => s.map (· + 1) ++ [7, 7, 7, 7, 7, 7, 7, 7]) [[0], [0]]
+    [0, 0, 0, 0, 1, 1, 1, 1, 2] [[0], [1], [0], [1]]).map (fun o => o.map (fun c => c.map (fun x => x.2.seed)))
+    = some [[[2, 2, 2, 2], [7, 7, 7, 7]], [[3, 3, 3, 3], [7, 7, 7, 7]]] := by decide
+
+/-- **seed derivation of the two-level keys (GGLWE→GGSW key, blind-rotation key) is injective**: with `C` cells per sub-key,
+sub-key `i` / cell `j` sits at global position `i·C + j`; distinct (sub-key, cell) pairs get distinct positions, i.e. distinct
+`branch()` / `new_seed()` draws (level 1: word block `4i` of `Source::new(seed_xa)`; level 2: word block `4j` of
+`Source::new(seed_i)`) -/
+theorem two_level_seed_index_injective (C : Nat) {i j i' j' : Nat} (hj : j < C) (hj' : j' < C) (h : i * C + j = i' * C + j') :
+    i = i' ∧ j = j' :=
+  seed_index_injective C hj hj' h
+
+example : (0 * 4 + 3 = 0 * 4 + 3) ∧ ¬ (1 * 4 + 0 = 0 * 4 + 3) := by decide
+
+/-- **`decompress_lwe` inverts "keep the bodies and the mask seed" of a standard LWE ciphertext**: for every LWE ciphertext
+produced by `lwe_encrypt_sk` with `source_xa = Source::new(seed)`, `decompress_lwe (bodies, seed)` is that ciphertext, limb for
+limb (poulpy-core has no compressed LWE encryption routine; this is the statement its layout and `decompress_lwe` support). -/
+theorem lwe_compress_decompress (b nl size kxe : Nat) (stream : List Nat) (filled : Col) (rest : List Nat)
+    (hf : Sampling.vecFillUniform b (nl + 1) size stream = some (filled, rest)) (hfl : filled.length = size)
+    (pt : List Int) (ptB : Nat) (sk : Poly) (e : Int) (ct : Col) (h : Core.lweEncryptSk b size kxe filled pt ptB sk e = some ct) :
+    Core.decompressLwe b nl (Core.lweBodies ct) stream = some ct := by
+  unfold Core.lweEncryptSk at h
+  split at h
+  · simp at h
+  · simp only [] at h
+    split at h
+    · simp at h
+    · rename_i t1 _
+      simp only [Option.some.injEq] at h
+      subst h
+      have hlen : (Core.lweBodies ((List.range size).map (fun i =>
+          ((normalizeAssignCol b t1 1).getD i []).getD 0 0 :: (filled.getD i []).drop 1))).length = size := by
+        simp [Core.lweBodies]
+      unfold Core.decompressLwe
+      rw [hlen, hf]
+      simp only [Option.map_some, Option.some.injEq]
+      apply List.ext_getElem
+      · simp [Core.lweBodies, hfl]
+      · intro i h1 h2
+        simp only [List.length_map, List.length_range] at h2
+        simp [Core.lweBodies, List.getD_eq_getElem?_getD, List.getElem?_eq_getElem (show i < filled.length by omega)]
+
+example : (Sampling.vecFillUniform 3 3 2 [1, 2, 3, 4, 5, 6, 7]).isSome ∧
+    ((Sampling.vecFillUniform 3 3 2 [1, 2, 3, 4, 5, 6, 7]).bind (fun f => Core.lweEncryptSk 3 2 5 f.1 [2] 3 [1, -1] (-1))).isSome := by decide
 
 /-! ### the GGLWE→GGSW key: two levels of branching -/
 
